@@ -65,10 +65,11 @@ class C16(framework.PropertyCheck):
                       "(defmacro len9 [e] (length e))", '(print (len9 (when 1 2 3)))',
                       # ... and again several forms after the last definition of a macro
                       '(define a8 2)', '(print "gap")', '(print (q9 (* a8 (+ 2 3))) (len9 (unless 1 2)))']
-        elif r.random() < 0.3:
-            # the same with the macro defined in a nested position (include guard, do block)
+        if r.random() < 0.35:
+            # the same with the macro defined in a nested position (include guard, do block, under a built-in form)
             extra += [r.choice(["(unless (defined? 'show9) (defmacro show9 [e] `(list ',e ,e)))", "(do (define g9 1) (defmacro show9 [e] `(list ',e ,e)))",
-                                "(when #t (defmacro show9 [e] `(list ',e ,e)))"]), '(print (show9 (+ 1 2)) (show9 (if 1 2 3)))']
+                                "(when #t (defmacro show9 [e] `(list ',e ,e)))", "(if #t (defmacro show9 [e] `(list ',e ,e)))",
+                                "(if (defined? 'show9) 0 (defmacro show9 [e] `(list ',e ,e)))", "(&& 1 (do (defmacro show9 [e] `(list ',e ,e)) 1))"]), '(print (show9 (+ 1 2)) (show9 (if 1 2 3)))']
         if with_trace:
             extra += [r.choice(['(step 2)', '(step)', '(step 1)']), '(print INDEX " " t0^top.cnt)',
                       r.choice(['(print (find (= t0^top.clk 1)))', '(whenever (= t0^top.clk 1) (print "w" INDEX))', '(print t0^top.cnt@1)',
